@@ -74,47 +74,48 @@ Theorem C12_send_route_error : forall c conns r fc e,
 Proof. exact send_route_error. Qed.
 Print Assumptions C12_send_route_error.
 
-(* ---- list-offsets: Split makes one message per named partition; each goes to the leader
-        when the layout knows one ---- *)
+(* ---- list-offsets: Split makes one message per named partition; each goes to the leader,
+        or fails like produce/fetch when the layout knows none ---- *)
 Theorem C12_listoffsets_split : forall ts,
   (forall m, In m (split_listoffsets ts) -> exists t p, m = [(t, [p])] /\ names_part ts t p)
   /\ (forall t p, names_part ts t p -> In [(t, [p])] (split_listoffsets ts)).
 Proof. intro ts. split; [exact (split_listoffsets_single ts) | exact (split_listoffsets_complete ts)]. Qed.
 Print Assumptions C12_listoffsets_split.
 
-Theorem C12_route_leader_listoffsets : forall c t p b rest_p rest_t,
-  parts_wf c -> leader_of c t p = Some b ->
-  route_listoffsets c ((t, p :: rest_p) :: rest_t) = Ok b.
-Proof. exact route_listoffsets_known. Qed.
+(* On every well-formed layout: an unknown topic, an unknown partition or a leader that is not
+   among the brokers is the same error produce/fetch give, and otherwise the message goes to
+   the partition's leader -- so Ok b holds exactly when b is the designated leader. *)
+Theorem C12_route_leader_listoffsets : forall c t p rest_p rest_t,
+  parts_wf c ->
+  route_listoffsets c ((t, p :: rest_p) :: rest_t) =
+  match get_topic c t with
+  | None => Err (ENoTopic t)
+  | Some tp =>
+      match mget Z.eqb (t_parts tp) p with
+      | None => Err (ENoPartition t p)
+      | Some part =>
+          match get_broker c (p_leader part) with
+          | Some b => Ok b
+          | None => Err (ENoLeader t p)
+          end
+      end
+  end.
+Proof. exact route_listoffsets_spec. Qed.
 Print Assumptions C12_route_leader_listoffsets.
 
-(* REFUTED for list-offsets: "an error when topic, partition or leader is unknown".
-   Request.Broker of protocol/listoffsets never returns an error.  For a partition whose leader the
-   layout does not know (LeaderID -1 during an election) it returns the zero Broker, whose
-   ID is 0: the request is sent to broker 0, which is not the leader.  For an unknown topic or
-   partition it returns Broker{ID:-1}: the request is sent on the control connection. *)
+Theorem C12_route_leader_listoffsets_iff : forall c t p rest_p rest_t b,
+  parts_wf c ->
+  (route_listoffsets c ((t, p :: rest_p) :: rest_t) = Ok b <-> leader_of c t p = Some b).
+Proof. exact route_listoffsets_ok_iff. Qed.
+Print Assumptions C12_route_leader_listoffsets_iff.
+
+(* the layout used by the remaining refutation and the examples: no controller, a leaderless partition *)
 Definition refute_md : metadata :=
   {| md_controller := -1;
      md_brokers := [ {| mb_id := 0; mb_addr := 1 |}; {| mb_id := 1; mb_addr := 2 |} ];
      md_topics := [ {| mt_name := [116%N]; mt_err := 0; mt_internal := false;
                        mt_parts := [ {| mp_idx := 0; mp_err := 5; mp_leader := -1 |};
                                      {| mp_idx := 1; mp_err := 0; mp_leader := 1 |} ] |} ] |}.
-
-Theorem C12_route_leader_listoffsets_refuted :
-  exists m t p,
-    let c := make_layout (normalize m) in
-    brokers_wf c /\ parts_wf c
-    /\ get_topic c t <> None /\ leader_of c t p = None
-    /\ send_request c (c_brokers c) (RListOffsets [(t, [p])]) None = Sent [(TBroker 0, K_ListOffsets)]
-    /\ send_request c (c_brokers c) (RListOffsets [([120%N], [p])]) None = Sent [(TControl, K_ListOffsets)].
-Proof.
-  exists refute_md, [116%N], 0. cbv zeta.
-  split; [apply make_layout_brokers_wf; vm_compute; intros b [<-|[<-|[]]]; discriminate|].
-  split; [apply make_layout_parts_wf|].
-  split; [vm_compute; discriminate|].
-  split; vm_compute; auto.
-Qed.
-Print Assumptions C12_route_leader_listoffsets_refuted.
 
 (* ---- create-topics, delete-topics, create-partitions, ...: the controller ---- *)
 Theorem C12_route_controller : forall c conns api fc b,
@@ -142,50 +143,40 @@ Qed.
 Print Assumptions C12_route_controller_unknown_refuted.
 
 (* ---- group and transactional requests: a find-coordinator exchange on the control
-        connection, then the request goes to the node the answer names ---- *)
+        connection; an error code in the answer fails the request and nothing is sent after
+        the lookup; otherwise the request goes to the node the answer names ---- *)
 Theorem C12_route_coordinator : forall c conns api key a,
-  0 <= fc_node a ->
-  (mhas Z.eqb conns (fc_node a) = true ->
+  (fc_err a = 0 -> 0 <= fc_node a -> mhas Z.eqb conns (fc_node a) = true ->
      send_request c conns (RGroup api key) (Some a) = Sent [(TControl, K_FindCoordinator); (TBroker (fc_node a), api)]
      /\ send_request c conns (RTxn api key) (Some a) = Sent [(TControl, K_FindCoordinator); (TBroker (fc_node a), api)])
-  /\ (mhas Z.eqb conns (fc_node a) = false ->
-     send_request c conns (RGroup api key) (Some a) = Rejected [(TControl, K_FindCoordinator)] RejBrokerNotAvailable).
+  /\ (fc_err a = 0 -> 0 <= fc_node a -> mhas Z.eqb conns (fc_node a) = false ->
+     send_request c conns (RGroup api key) (Some a) = Rejected [(TControl, K_FindCoordinator)] RejBrokerNotAvailable
+     /\ send_request c conns (RTxn api key) (Some a) = Rejected [(TControl, K_FindCoordinator)] RejBrokerNotAvailable)
+  /\ (fc_err a <> 0 ->
+     send_request c conns (RGroup api key) (Some a) = Rejected [(TControl, K_FindCoordinator)] (RejCoordinatorError (fc_err a))
+     /\ send_request c conns (RTxn api key) (Some a) = Rejected [(TControl, K_FindCoordinator)] (RejCoordinatorError (fc_err a))).
 Proof.
-  intros c conns api key a Hn. split.
-  - intro Hc. split; [exact (send_group c conns api key a Hn Hc) | exact (send_txn c conns api key a Hn Hc)].
-  - exact (send_coordinator_unknown_broker c conns api key a Hn).
+  intros c conns api key a. split; [|split].
+  - intros He Hn Hc. split; [exact (send_group c conns api key a He Hn Hc) | exact (send_txn c conns api key a He Hn Hc)].
+  - exact (send_coordinator_unknown_broker c conns api key a).
+  - exact (send_coordinator_error c conns api key a).
 Qed.
 Print Assumptions C12_route_coordinator.
 
-(* REFUTED: the error code of the find-coordinator response is not examined.  An answer
-   COORDINATOR_NOT_AVAILABLE (15) with node -1 does not fail the request: it is sent on the
-   control connection, to a broker that is not the coordinator. *)
-Theorem C12_route_coordinator_error_refuted :
-  exists c conns api g a,
-    fc_err a <> 0 /\ fc_node a = -1
-    /\ send_request c conns (RGroup api g) (Some a) = Sent [(TControl, K_FindCoordinator); (TControl, api)].
-Proof.
-  exists empty_cluster, [], 11, [103%N], {| fc_err := 15; fc_node := -1 |}.
-  split; [discriminate|]. split; reflexivity.
-Qed.
-Print Assumptions C12_route_coordinator_error_refuted.
-
 (* which API keys take the coordinator route: every request the Kafka protocol addresses to the
-   transaction coordinator is a TransactionalMessage, every one addressed to the group
-   coordinator is a GroupMessage -- except Heartbeat (12) *)
+   group coordinator (Heartbeat included) is a GroupMessage, every one addressed to the
+   transaction coordinator is a TransactionalMessage *)
 Theorem C12_coordinator_apis_classified :
-  Forall (fun api => api = 12 \/ message_class api = CGroup) kafka_group_coordinator_apis
+  Forall (fun api => message_class api = CGroup) kafka_group_coordinator_apis
   /\ Forall (fun api => message_class api = CTxn) kafka_txn_coordinator_apis.
 Proof. exact coordinator_apis_classified. Qed.
 Print Assumptions C12_coordinator_apis_classified.
 
-(* REFUTED for Heartbeat: heartbeat.Request has no Group() method, so a heartbeat is sent on the
-   control connection (the bootstrap broker), not to the group's coordinator *)
-Theorem C12_heartbeat_to_coordinator_refuted :
-  In 12 kafka_group_coordinator_apis /\ message_class 12 = CPlain
-  /\ forall c conns key fc, send_request c conns (keyed_request 12 key) fc = Sent [(TControl, 12)].
-Proof. exact heartbeat_not_group_message. Qed.
-Print Assumptions C12_heartbeat_to_coordinator_refuted.
+Theorem C12_coordinator_apis_keyed : forall key,
+  Forall (fun api => keyed_request api key = RGroup api key) kafka_group_coordinator_apis
+  /\ Forall (fun api => keyed_request api key = RTxn api key) kafka_txn_coordinator_apis.
+Proof. exact coordinator_apis_keyed. Qed.
+Print Assumptions C12_coordinator_apis_keyed.
 
 (* everything else (metadata, find-coordinator, ...): the control connection, i.e. any broker *)
 Theorem C12_route_any : forall c conns api fc, send_request c conns (ROther api) fc = Sent [(TControl, api)].
@@ -319,3 +310,15 @@ Example C12_follows_example :
              LRefresh None (Some 8%N); LRequest (QOne (RProduce [([116%N], [0])])) None] in
   snd (pool_run pool_init ls) = [RTSend [Sent [(TBroker 1, K_Produce)]]].
 Proof. vm_compute. reflexivity. Qed.
+
+(* the former defect witnesses, now satisfying the property *)
+Example C12_regression_example :
+  let c := make_layout (normalize refute_md) in
+  send_request c (c_brokers c) (RListOffsets [([116%N], [0])]) None = Rejected [] (RejRoute (ENoLeader [116%N] 0))
+  /\ send_request c (c_brokers c) (RListOffsets [([120%N], [0])]) None = Rejected [] (RejRoute (ENoTopic [120%N]))
+  /\ send_request c (c_brokers c) (RListOffsets [([116%N], [1])]) None = Sent [(TBroker 1, K_ListOffsets)]
+  /\ send_request c (c_brokers c) (keyed_request 12 [103%N]) (Some {| fc_err := 0; fc_node := 1 |})
+     = Sent [(TControl, K_FindCoordinator); (TBroker 1, 12)]
+  /\ send_request c (c_brokers c) (keyed_request 12 [103%N]) (Some {| fc_err := 15; fc_node := -1 |})
+     = Rejected [(TControl, K_FindCoordinator)] (RejCoordinatorError 15).
+Proof. vm_compute. repeat split; reflexivity. Qed.
